@@ -1152,16 +1152,20 @@ impl<'env> Executor<'env> {
         state: &mut State<'_, 'env>,
         out: &mut Output,
     ) -> Result<Option<Value>, Error> {
-        if let Some((name, block_stack)) = state.blocks.get_key_value(name) {
+        if let Some((&name, block_stack)) = state.blocks.get_key_value(name) {
             if block_stack.len() == 1 && block_stack.instructions().is_required_block() {
                 return Err(Error::new(
                     ErrorKind::InvalidOperation,
                     format!("Required block '{name}' not found"),
                 ));
             }
-            let instructions = block_stack.instructions();
+            // a block is always entered at its most derived definition, also
+            // when it is called again while a `super()` of the same block is
+            // in progress (which moved the cursor up the chain).
+            let saved_depth = state.blocks.get_mut(name).unwrap().enter_most_derived();
+            let instructions = state.blocks.get(name).unwrap().instructions();
             let auto_escape = state.auto_escape;
-            state.with_execution_state(
+            let rv = state.with_execution_state(
                 instructions,
                 auto_escape,
                 Some(name),
@@ -1170,7 +1174,11 @@ impl<'env> Executor<'env> {
                     ok!(state.ctx.push_frame(Frame::default()));
                     Self::eval_state(state, out)
                 },
-            )
+            );
+            if let Some(block_stack) = state.blocks.get_mut(name) {
+                block_stack.restore_depth(saved_depth);
+            }
+            rv
         } else {
             Err(Error::new(
                 ErrorKind::UnknownBlock,
